@@ -175,4 +175,150 @@ theorem readClLens_spec (cl : List Nat) (h5 : ∀ x ∈ cl, x ≤ 5) :
         right
         exact ⟨hkl, by omega⟩
 
+
+/-! ### the writer -/
+
+theorem order_lt : ∀ o ∈ kStorageOrder, o < 18 := by decide
+
+theorem order_length : kStorageOrder.length = 18 := by decide
+
+theorem order_getD_lt (j : Nat) (hj : j < 18) : kStorageOrder.getD j 0 < 18 := by
+  have : ∀ j : Fin 18, kStorageOrder.getD j.val 0 < 18 := by decide
+  exact this ⟨j, hj⟩
+
+theorem getAt_order (j : Nat) (hj : j < 18) : getAt kStorageOrder j = .ok (kStorageOrder.getD j 0) :=
+  getAt_getD kStorageOrder j (by rw [order_length]; exact hj)
+
+/-- `codes_to_store`: one past the last non-zero length in storage order -/
+theorem codesToStoreLoop_spec (cl : List Nat) (hl : cl.length = 18) :
+    ∀ c, c ≤ 18 → ∃ r, codesToStoreLoop cl c = .ok r ∧ r ≤ c ∧
+      (∀ j, r ≤ j → j < c → cl.getD (kStorageOrder.getD j 0) 0 = 0) ∧
+      (0 < r → cl.getD (kStorageOrder.getD (r - 1) 0) 0 ≠ 0) := by
+  intro c
+  induction c with
+  | zero => intro _; exact ⟨0, rfl, Nat.le_refl _, fun j h1 h2 => by omega, fun h => by omega⟩
+  | succ c ih =>
+    intro hc
+    have ho := order_getD_lt c (by omega)
+    simp only [codesToStoreLoop, getAt_order c (by omega), Out.bind_ok,
+      getAt_getD cl _ (by rw [hl]; exact ho)]
+    by_cases hd : cl.getD (kStorageOrder.getD c 0) 0 = 0
+    · simp only [hd, ne_eq, not_true_eq_false, ↓reduceIte]
+      obtain ⟨r, h1, h2, h3, h4⟩ := ih (by omega)
+      refine ⟨r, h1, by omega, ?_, h4⟩
+      intro j hj1 hj2
+      by_cases hjc : j = c
+      · subst hjc; exact hd
+      · exact h3 j hj1 (by omega)
+    · simp only [ne_eq, hd, not_false_eq_true, ↓reduceIte]
+      exact ⟨c + 1, rfl, Nat.le_refl _, fun j h1 h2 => by omega, fun _ => by simpa using hd⟩
+
+theorem vlc_fits (v : Nat) (hv : v ≤ 5) :
+    kHuffmanBitLengthHuffmanCodeSymbols.getD v 0
+      < 2 ^ kHuffmanBitLengthHuffmanCodeBitLengths.getD v 0 ∧
+    kHuffmanBitLengthHuffmanCodeBitLengths.getD v 0 ≤ 56 := by
+  have : ∀ v : Fin 6, kHuffmanBitLengthHuffmanCodeSymbols.getD v.val 0
+      < 2 ^ kHuffmanBitLengthHuffmanCodeBitLengths.getD v.val 0 ∧
+      kHuffmanBitLengthHuffmanCodeBitLengths.getD v.val 0 ≤ 56 := by decide
+  exact this ⟨v, by omega⟩
+
+/-- the `for i in skip_some..codes_to_store` loop appends the lengths in storage order -/
+theorem storeClLoop_spec (cl : List Nat) (hl : cl.length = 18) (h5 : ∀ x ∈ cl, x ≤ 5) :
+    ∀ (c i : Nat) (w : Writer), i + c ≤ 18 →
+    storeClLoop cl c i w = .ok (w ++ bitsFor cl ((kStorageOrder.drop i).take c)) := by
+  intro c
+  induction c with
+  | zero => intro i w _; simp [storeClLoop, bitsFor]
+  | succ c ih =>
+    intro i w hic
+    have ho := order_getD_lt i (by omega)
+    have hv5 : cl.getD (kStorageOrder.getD i 0) 0 ≤ 5 := by
+      apply h5
+      rw [List.getD_eq_getElem?_getD, List.getElem?_eq_getElem (by rw [hl]; exact ho)]; simp
+    obtain ⟨hfit, h56⟩ := vlc_fits _ hv5
+    simp only [storeClLoop, getAt_order i (by omega), Out.bind_ok,
+      getAt_getD cl _ (by rw [hl]; exact ho)]
+    rw [getAt_getD kHuffmanBitLengthHuffmanCodeBitLengths _ (by
+        have : kHuffmanBitLengthHuffmanCodeBitLengths.length = 6 := by decide
+        omega),
+      getAt_getD kHuffmanBitLengthHuffmanCodeSymbols _ (by
+        have : kHuffmanBitLengthHuffmanCodeSymbols.length = 6 := by decide
+        omega)]
+    simp only [Out.bind_ok, writeBits_ok _ _ w hfit h56]
+    rw [ih (i + 1) _ (by omega)]
+    have hd : kStorageOrder.drop i = kStorageOrder.getD i 0 :: kStorageOrder.drop (i + 1) := by
+      rw [List.drop_eq_getElem_cons (by rw [order_length]; omega), List.getD_eq_getElem?_getD,
+        List.getElem?_eq_getElem (by rw [order_length]; omega)]
+      rfl
+    rw [hd, List.take_succ_cons]
+    simp [bitsFor, vlcBits, List.append_assoc]
+
+/-! ### filling the lengths in -/
+
+theorem fill_length (cl : List Nat) : ∀ (os acc : List Nat), (fill cl acc os).length = acc.length := by
+  intro os
+  induction os with
+  | nil => intro acc; rfl
+  | cons o os ih => intro acc; simp only [fill, List.foldl_cons] at ih ⊢; rw [ih]; simp
+
+theorem fill_getD (cl : List Nat) : ∀ (os acc : List Nat) (p : Nat), (∀ o ∈ os, o < acc.length) →
+    (fill cl acc os).getD p 0 = if p ∈ os then cl.getD p 0 else acc.getD p 0 := by
+  intro os
+  induction os with
+  | nil => intro acc p _; simp [fill]
+  | cons o os ih =>
+    intro acc p hlt
+    have ho := hlt o (by simp)
+    simp only [fill, List.foldl_cons] at ih ⊢
+    rw [ih (acc.set o (cl.getD o 0)) p (by
+      intro x hx; rw [List.length_set]; exact hlt x (List.mem_cons_of_mem _ hx))]
+    by_cases hpo : p = o
+    · subst hpo
+      by_cases hin : p ∈ os
+      · simp [hin]
+      · simp only [hin, ↓reduceIte, List.mem_cons, true_or]
+        rw [getD_set _ _ _ _ ho]; simp
+    · by_cases hin : p ∈ os
+      · simp [hin]
+      · simp only [hin, ↓reduceIte, List.mem_cons, hpo, or_self]
+        rw [getD_set _ _ _ _ ho]
+        have hop : ¬ o = p := fun h => hpo h.symm
+        rw [if_neg hop]
+
+theorem gsum_append (cl a b : List Nat) : gsum cl (a ++ b) = gsum cl a + gsum cl b := by
+  simp [gsum]
+
+theorem gsum_zero (cl os : List Nat) (h : ∀ o ∈ os, cl.getD o 0 = 0) : gsum cl os = 0 := by
+  induction os with
+  | nil => rfl
+  | cons o os ih =>
+    simp only [gsum, List.map_cons, List.sum_cons, h o (by simp), g, ↓reduceIte, Nat.zero_add]
+    exact ih (fun x hx => h x (List.mem_cons_of_mem _ hx))
+
+theorem order_perm : kStorageOrder.Perm (List.range 18) := by decide
+
+theorem map_range_getD (l : List Nat) (h : Nat → Nat) :
+    (List.range l.length).map (fun s => h (l.getD s 0)) = l.map h := by
+  apply List.ext_getElem?
+  intro k
+  simp only [List.getElem?_map, List.getElem?_range]
+  by_cases hk : k < l.length
+  · simp [hk, List.getD_eq_getElem?_getD]
+  · simp [hk, List.getElem?_eq_none (Nat.le_of_not_lt hk)]
+
+/-- code space used by the 18 lengths = their Kraft sum for limit 5 -/
+theorem gsum_order_eq_kraft (cl : List Nat) (hl : cl.length = 18) (h5 : ∀ x ∈ cl, x ≤ 5) :
+    gsum cl kStorageOrder = kraftSum 5 cl := by
+  have hg : ∀ v, v ≤ 5 → g v = if v = 0 then 0 else 2 ^ (5 - v) := by
+    intro v hv
+    have : v = 0 ∨ v = 1 ∨ v = 2 ∨ v = 3 ∨ v = 4 ∨ v = 5 := by omega
+    rcases this with rfl | rfl | rfl | rfl | rfl | rfl <;> decide
+  unfold gsum
+  rw [(order_perm.map fun o => g (cl.getD o 0)).sum_nat, ← hl, map_range_getD cl g]
+  unfold kraftSum
+  congr 1
+  apply List.map_congr_left
+  intro x hx
+  exact hg x (h5 x hx)
+
 end BV.Lemmas.HuffmanHeader
